@@ -42,8 +42,11 @@ def run_action_open(cfg: OpenActionConfig) -> int:
         # any ZID that is NOT the primary ZID to be targetable. In *.zoq files,
         # every ZID is targetable.
         zid_word = _trim_to_brackets(word).strip("[]")
+        # A ZID in brackets ('[240101#AB]') is a reference wherever it stands:
+        # only a bare ZID can be the ZID of the line's own note.
+        is_zid_reference = zid_word != word and zdt.is_zid(zid_word)
         is_targetable_zid = zdt.is_zid(zid_word) and (
-            found_primary_zid or is_zoq_file or i == 0
+            found_primary_zid or is_zoq_file or i == 0 or is_zid_reference
         )
         is_id_link = word.find("[#") >= 0 and word.find("]") >= 0
         is_rid_link = word.find("[@") >= 0 and word.find("]") >= 0
